@@ -296,3 +296,60 @@ def build(spec, per_obs_override=None, float_dtype=np.float32, auto_update=True)
             var = lsl.Var(v, dist, name=d["name"])
         lvars.append(var)
     return lvars
+
+
+# ------------------------------------------------------------------------------ independent numpy ancestral sampler (domain filter for C17)
+def sample_np(spec, rng):
+    """one joint ancestral draw of all distributed variables (float64, numpy); plain variables keep their initial value"""
+    vals = initial_values(spec)
+    for i, d in enumerate(spec["vars"]):
+        if d["family"] is None:
+            continue
+        p = {k: np.asarray(ref_value(r, vals), dtype=np.float64) for k, r in d["params"].items()}
+        shp = np.shape(vals[i])
+        with np.errstate(all="ignore"):
+            f = d["family"]
+            if f == "Normal":
+                v = rng.normal(p["loc"], p["scale"], size=shp)
+            elif f == "HalfNormal":
+                v = np.abs(rng.normal(0.0, p["scale"], size=shp))
+            elif f == "Gamma":
+                v = rng.gamma(p["concentration"], 1.0 / p["rate"], size=shp)
+            elif f == "InverseGamma":
+                v = p["scale"] / rng.gamma(p["concentration"], 1.0, size=shp)
+            elif f == "Exponential":
+                v = rng.exponential(1.0 / p["rate"], size=shp)
+            elif f == "LogNormal":
+                v = np.exp(rng.normal(p["loc"], p["scale"], size=shp))
+            elif f == "Beta":
+                v = rng.beta(p["concentration1"], p["concentration0"], size=shp)
+            elif f == "Uniform":
+                v = rng.uniform(p["low"], p["high"], size=shp)
+            else:
+                raise ValueError(f)
+        vals[i] = np.asarray(v, dtype=np.float64)
+    return vals
+
+
+def numerically_tame(spec, n=300, bound=1e4, seed=0):
+    """False if ancestral draws make some value or parameter non-finite / astronomically large (float32 samplers would overflow or spin)"""
+    rng = np.random.default_rng([seed, 1717])
+    try:
+        for _ in range(n):
+            vals = sample_np(spec, rng)
+            for i, d in enumerate(spec["vars"]):
+                arrs = [vals[i]] + ([np.asarray(ref_value(r, vals), dtype=np.float64) for r in d["params"].values()] if d["family"] else [])
+                for a in arrs:
+                    if not np.all(np.isfinite(a)) or np.any(np.abs(a) > bound):
+                        return False
+                if d["family"]:
+                    for k, r in d["params"].items():
+                        v = np.asarray(ref_value(r, vals), dtype=np.float64)
+                        # float32 samplers near the edge of a parameter space put atoms on the support boundary (Beta(2, 0.01) draws exactly 1.0)
+                        if k.startswith("concentration") and np.any(v < 0.25):
+                            return False
+                        if k in ("scale", "rate") and np.any(v < 0.02):
+                            return False
+    except Exception:  # noqa: BLE001
+        return False
+    return True
